@@ -73,6 +73,8 @@ for _n, _e, _r in (("cadd", "z + w", "C"), ("csub", "z - w", "C"), ("cneg", "-z"
 # C09: reductions
 for _n in ("reduce_add", "reduce_max", "reduce_min"):
     op(_n, "xsimd::%s(a)" % _n, "B", ALL_TYPES, "T")
+op("haddp", "xsimd::haddp(p_a)", "B", FLOAT_TYPES)
+op("transpose", "(xsimd::transpose(q, q + B::size), q[0])", "Q", ALL_TYPES)
 # C05: data movement
 op("zip_lo", "xsimd::zip_lo(a, b)", "BB", ALL_TYPES)
 op("zip_hi", "xsimd::zip_hi(a, b)", "BB", ALL_TYPES)
@@ -106,7 +108,7 @@ def entry_text(opn, tid, aid):
     T, A = TYPES[tid][0], ARCHS[aid][0]
     B = "xsimd::batch<%s, %s>" % (T, A)
     M = "xsimd::batch_bool<%s, %s>" % (T, A)
-    names = {"B": iter(["a", "b", "c"]), "M": iter(["m", "m2"]), "I": iter(["n"]), "S": iter(["s"]), "p": iter(["p"]), "q": iter(["q"]), "Z": iter(["z", "w"])}
+    names = {"B": iter(["a", "b", "c"]), "M": iter(["m", "m2"]), "I": iter(["n"]), "S": iter(["s"]), "p": iter(["p"]), "q": iter(["q"]), "Z": iter(["z", "w"]), "Q": iter(["q"])}
     Cb = "xsimd::batch<std::complex<%s>, %s>" % (T, A)
     params, prologue = [], []
     for k in kinds:
@@ -128,6 +130,8 @@ def entry_text(opn, tid, aid):
             params.append("%s const* %s" % (T, nm))
         elif k == "q":
             params.append("%s* %s" % (T, nm))
+        elif k == "Q":
+            params.append("%s* %s" % (B, nm))
     if ret.startswith("R:"):
         d = ret[2:]
         if d == "int":
